@@ -261,9 +261,18 @@ def progress_option_section(ctx, pid, cases, via="ccsds"):
         chunks = [max(1, len(data) // 3 or 1)] * 8
         _, base_items, base_outcome = framer_io.run_framer(data, kind, rsize, skip, chooser=framer_io.Script(list(chunks)), max_items=400, via=via)
         buf = io.StringIO()
-        with contextlib.redirect_stdout(buf):
-            _, items, outcome = framer_io.run_framer(data, kind, rsize, skip, chooser=framer_io.Script(list(chunks)), max_items=400, via=via,
-                                                     gen_kwargs={"show_progress": True})
+        frozen = n % 3 == 2          # every third case: a clock that does not advance while the stream is framed (coarse timers exist)
+        import time as _time
+        real_ns = _time.time_ns
+        t0 = real_ns()
+        if frozen:
+            _time.time_ns = lambda: t0
+        try:
+            with contextlib.redirect_stdout(buf):
+                _, items, outcome = framer_io.run_framer(data, kind, rsize, skip, chooser=framer_io.Script(list(chunks)), max_items=400, via=via,
+                                                         gen_kwargs={"show_progress": True})
+        finally:
+            _time.time_ns = real_ns
         n += 1
         ctx.traces += 1
         ctx.count(("show-progress", kind, data[:64], len(data), rsize, skip))
